@@ -113,6 +113,9 @@ def machine_cases(tier):
         dict(name="two-closing", mol=M(pre(), S("[<]", ["[<]C(N)C[>]"], ["[>|3|]F", "[>]Cl"], "[]", G1), name="m-two-closing"), nmax=n,
              probe=lambda smi, units: closing),
         dict(name="two-blocks", mol=M(pre(), S("[<]", ["[<]C(N)C[>]"], [], "[>]", G1), S("[<]", ["[<]C(=O)C[>]"], [], "[>]", U1), suf(), name="m-two-blocks"), nmax=5),
+        # two neighbouring blocks of the SAME unit: a chain of n units is reached through every split (k, n - k); its probability is the sum
+        dict(name="two-blocks-same-unit", mol=M(pre(), S("[<]", ["[<]C(N)C[>]"], [], "[>]", G1), S("[<]", ["[<]C(N)C[>]"], [], "[>]", ("gauss", [110, 20])), suf(),
+                                                name="m-two-blocks-same-unit"), nmax=6),
         dict(name="connector", mol=M(pre(), S("[<]", ["[<]C(N)C[>]"], [], "[>]", G1), Token([_imp(">"), "CC[Si]C", _imp("<", w=0)]),
                                      S("[<]", ["[<]C(=O)C[>]"], [], "[>]", P1), suf("F"), name="m-connector"), nmax=4),
         dict(name="wide-gauss", mol=M(pre(), S("[<]", ["[<]C(N)C[>]"], [], "[>]", W1), suf(), name="m-wide"), nmax=n),
@@ -232,6 +235,11 @@ def run(tier):
         outside = {"other-suffix": inside[:-4] + "[Ge]" if inside.endswith("[Si]") else inside + "Cl",
                    "extra-atom-in-unit": inside.replace(case.blocks[0][2], case.blocks[0][2] + "C", 1),
                    "truncated": inside[:-4] if inside.endswith("[Si]") else inside[:-1]}
+        # a block that received no unit at all: generation puts at least one unit into every block
+        for b in range(len(case.blocks)):
+            ns0 = list(modal)
+            ns0[b] = 0
+            outside[f"block-{b + 1}-without-a-unit"] = case.build(ns0)
         for why, smi in outside.items():
             if Chem.MolFromSmiles(smi) is None:
                 continue
